@@ -67,8 +67,8 @@ def render_value(rng, kw: str, kind: int, v: int) -> str:
             cands = sorted(n for n, b in names.items() if b == v)
             if cands:
                 return rng.choice(cands)
-    if x > 0.9:
-        return hex(v)
+    if x > 0.9 and kw not in ('packet-length', 'dscp', 'traffic-class', 'flow-label'):
+        return hex(v)  # Resource._value reads 0x.. ; the int()-based converters do not
     return str(v)
 
 
@@ -77,7 +77,7 @@ def render_ops(rng, kw: str, kind: int, terms: list[tuple[int, int]]) -> str:
     toks: list[str] = []
     for i, (fl, v) in enumerate(terms):
         op = (rig.NUM_OPS if kind == 1 else rig.BIN_OPS)[fl & (7 if kind == 1 else 3)]
-        if kind == 1 and op == '=' and rng.random() < 0.3 and not str(render_value).startswith('t'):
+        if kind == 1 and op == '=' and rng.random() < 0.3:
             op = ''
         s = op + render_value(rng, kw, kind, v)
         if fl & 0x40 and toks:
@@ -418,6 +418,18 @@ def rule_words(rule: list[tuple]) -> str:
 
 ERRMAP = {'ValueError': 'value-error', 'error': 'struct-error', 'Notify': 'notify'}
 
+_drv: common.Driver | None = None
+
+
+def drive(lines: list[str]) -> list[str]:
+    """Small scripts go through one persistent driver process, large ones through a fresh batch run."""
+    global _drv
+    if len(lines) > 40:
+        return common.run_driver(DRV, lines)
+    if _drv is None:
+        _drv = common.Driver(DRV)
+    return [_drv.ask(line) for line in lines]
+
 
 def run_encode_batch(cases: list[dict], rng) -> list[dict]:
     """impl + model + reference for every case; returns one result dict per case."""
@@ -452,7 +464,7 @@ def run_encode_batch(cases: list[dict], rng) -> list[dict]:
             r['i_act'] = len(lines)
             lines.append('flow act ' + ' '.join(a[1] for a in case['actions']))
         res.append(r)
-    out = common.run_driver(DRV, lines)
+    out = drive(lines)
     # second round: read the implementation's communities back with the reference reader
     lines2 = []
     for r in res:
@@ -462,7 +474,7 @@ def run_encode_batch(cases: list[dict], rng) -> list[dict]:
         if r.get('comms'):
             r['i_decact'] = len(lines2)
             lines2 += [f'flow decact {c}' for c in r['comms']]
-    out2 = common.run_driver(DRV, lines2)
+    out2 = drive(lines2)
     for r in res:
         if 'i_decact' in r:
             r['decact'] = out2[r['i_decact'] : r['i_decact'] + len(r['comms'])]
@@ -481,12 +493,11 @@ def describe_tcomp(case: dict, i: int) -> str:
     c = case['tcomps'][i]
     if c[0] == 'o':
         return f'{CLASSNAME[case["kws"][i]]}:{value_class(c[1], c[3])}'
-    side = 'destination' if c[1] == 1 else 'source'
     if c[0] == 't4':
-        return f'{side}-ipv4:len-{"ok" if c[3] <= 32 else "above-32"}'
+        return f'prefix-ipv4:len-{"ok" if c[3] <= 32 else "above-32"}'
     ln, off = c[3], c[4]
     oc = 'zero' if off == 0 else 'above-255' if off > 255 else 'below-len' if off < ln else 'not-below-len'
-    return f'{side}-ipv6:len-{"ok" if ln <= 128 else "above-128"}:offset-{oc}'
+    return f'prefix-ipv6:len-{"ok" if ln <= 128 else "above-128"}:offset-{oc}'
 
 
 def canon_encode(cls: str, case: dict, extra: dict | None = None) -> dict:
@@ -498,17 +509,36 @@ def canon_encode(cls: str, case: dict, extra: dict | None = None) -> dict:
     return d
 
 
+EXPECT_ACCEPT = ('good', 'offset', 'all13', 'long-lists', 'noncanonical-prefix')
+
+
+def payload_len(r: dict) -> int:
+    n = len(r['enc'].split(' ')[1]) // 2 if r['enc'].startswith('ok ') and r['enc'].split(' ')[1] != '-' else 0
+    return n - (1 if n < 241 else 2)
+
+
 def judge_encode(case: dict, r: dict) -> tuple[str | None, str | None, str]:
     """(disagreement model-vs-code or None, oracle failure class or None, explanation)."""
     dis = None
-    # correspondence: Lean toRule vs harness to_rule
-    want_rule = 'ok ' + rule_words(r['rule']) if r['rule'] else 'ok -'
-    if r['tor'] != want_rule and not any(c[0] != 'o' and (c[3] > (128 if c[0] == 't6' else 32) or (c[0] == 't6' and c[4] > c[3])) for c in case['tcomps']) and len([c for c in case['tcomps'] if c[1] == 1 and c[0] != 'o']) <= 1 and len([c for c in case['tcomps'] if c[1] == 2 and c[0] != 'o']) <= 1:
+    t = case['tcomps']
+    # correspondence: Lean toRule vs harness to_rule (on texts where both are defined the same way)
+    comparable = (
+        not any(c[0] == 'o' and c[3] < 0 for c in t)
+        and not any(c[0] != 'o' and (c[3] > (128 if c[0] == 't6' else 32) or (c[0] == 't6' and c[4] > c[3])) for c in t)
+        and all(len([c for c in t if c[1] == ty and c[0] != 'o']) <= 1 for ty in (1, 2))
+    )
+    want_rule = 'ok ' + (rule_words(r['rule']) or '-')
+    if comparable and r['tor'] != want_rule:
         dis = f'toRule: lean {r["tor"][:200]} harness {want_rule[:200]}'
     wf = r['enc'].endswith('wf=1')
     ref_hex = r['enc'].split(' ')[1] if r['enc'].startswith('ok ') else None
     if r['parse'] == 'exc':
         return dis, 'parser-exception', f'exception escaped the parser: {r["error"]}'
+    if case['actions'] and r.get('act') == 'refuse':
+        # the then-clause is not expressible (mark 64, redirect 65536:65536 ...): acceptance of text is glue (C18)
+        if r['parse'] == 'ok':
+            dis = dis or f'actions: model refuses {[a[0] for a in case["actions"]]}, the parser accepts'
+        return dis, None, 'refused-action'
     if r['parse'] == 'ok':
         pk = r['pack']
         # correspondence with the model of ExaBGP's encoder
@@ -522,6 +552,12 @@ def judge_encode(case: dict, r: dict) -> tuple[str | None, str | None, str]:
             ok = (m == f'raise {kind}') or (kind == 'notify' and m in ('raise notify-mask', 'raise too-long'))
             if not ok:
                 dis = dis or f'exaPack: model {m[:200]} impl raise {pk["error"]} {pk.get("msg")}'
+    only_too_long = case['stream'].startswith('length') and payload_len(r) > 4095
+    if not wf and only_too_long:
+        # a rule that no NLRI can hold: refusing it at parse or at pack time is all C16 asks (when is C18's question)
+        if r['parse'] == 'ok' and r['pack']['status'] == 'ok':
+            return dis, 'oversize-sent', f'{payload_len(r)} byte rule sent as {r["pack"]["hex"][:40]}'
+        return dis, None, 'oversize-refused'
     if not wf:
         # the text denotes no RFC rule: it has to be refused
         if r['parse'] == 'refused':
@@ -532,7 +568,9 @@ def judge_encode(case: dict, r: dict) -> tuple[str | None, str | None, str]:
         return dis, 'accepted-not-an-rfc-rule', f'text denotes no RFC 8955/8956 rule but was accepted and sent as {pk["hex"][:80]}'
     # well-formed rule
     if r['parse'] == 'refused':
-        return dis, 'wellformed-refused', f'well-formed rule refused: {r["error"]}'
+        if case['stream'] in EXPECT_ACCEPT or case['stream'].startswith('length'):
+            dis = dis or f'text-accept: well-formed rule of stream {case["stream"]} refused: {r["error"]}'
+        return dis, None, 'wellformed-refused'
     pk = r['pack']
     if pk['status'] == 'raise':
         return dis, 'wellformed-pack-raises', f'well-formed rule accepted, pack_nlri raises {pk["error"]}: {pk.get("msg")}'
@@ -551,15 +589,11 @@ def judge_encode(case: dict, r: dict) -> tuple[str | None, str | None, str]:
 
 
 def judge_actions(case: dict, r: dict) -> tuple[str | None, str | None, str]:
-    if not case['actions'] or r['parse'] != 'ok':
-        if case['actions'] and r['parse'] == 'refused' and r.get('act', '').startswith('ok'):
-            return None, None, 'refused'  # acceptance of the then-clause is glue (C18)
+    if not case['actions'] or r['parse'] != 'ok' or r.get('act') == 'refuse':
         return None, None, ''
     if r.get('comms') is None:
         return None, 'action-pack-raises', r.get('comms_error', '')
     act = r['act']
-    if act == 'refuse':
-        return f'actions: model refuses, impl accepted {case["actions"]}', None, ''
     want = sorted(act.split(' ')[1].split(',')) if act != 'ok -' else []
     got = sorted(r['comms'])
     dis = None
@@ -597,9 +631,22 @@ def judge_actions(case: dict, r: dict) -> tuple[str | None, str | None, str]:
 
 def sub_case(case: dict, keep: list[int]) -> dict:
     c = dict(case)
-    c['tcomps'] = [case['tcomps'][i] for i in keep]
-    c['kws'] = [case['kws'][i] for i in keep]
-    c['breaks'] = [True for _ in keep]
+    t = []
+    kws = []
+    brk = []
+    for i in keep:
+        x = case['tcomps'][i]
+        kw = case['kws'][i]
+        if x[0] == 'o':
+            joined = bool(t) and t[-1][0] == 'o' and t[-1][1] == x[1] and kws[-1] == kw
+            if x[2] & 0x40 and not joined:
+                x = ('o', x[1], x[2] & ~0x40, x[3])  # an AND needs a predecessor in the same statement
+            brk.append(not (x[2] & 0x40))
+        else:
+            brk.append(True)
+        t.append(x)
+        kws.append(kw)
+    c['tcomps'], c['kws'], c['breaks'] = t, kws, brk
     c.pop('text', None)
     c.pop('text_override', None)
     return c
@@ -615,24 +662,31 @@ def eval_one(case: dict, rng) -> tuple[str | None, str | None, str, dict]:
 
 
 def shrink_encode(case: dict, cls: str, rng) -> dict:
-    """Drop components / operations while the same failure class persists."""
-    if case.get('text_override'):
-        return case
-    cur = case
-    cur = dict(cur)
-    cur['actions'] = []
-    if eval_one(cur, rng)[1] != cls:
-        cur = case
+    """Drop components / operations while the same failure class persists; the returned case carries the
+    exact text that failed (`text_override`) so that re-evaluation is deterministic."""
+
+    def fails(c: dict) -> bool:
+        if eval_one(c, rng)[1] == cls:
+            c['text_override'] = c['text']
+            return True
+        return False
+
+    cur = dict(case)
+    cur['text_override'] = case['text']
+    cand = dict(case, actions=[])
+    cand.pop('text_override', None)
+    if fails(cand):
+        cur = cand
     if cur['rd'] is not None:
-        cand = dict(cur)
-        cand['rd'] = cand['rd_text'] = None
-        if eval_one(cand, rng)[1] == cls:
+        cand = dict(cur, rd=None, rd_text=None)
+        cand.pop('text_override', None)
+        if fails(cand):
             cur = cand
+    need6 = case['v6'] == 1 and any(c[0] == 't6' for c in case['tcomps'])
     changed = True
     while changed and len(cur['tcomps']) > 1:
         changed = False
         n = len(cur['tcomps'])
-        # try dropping halves first for long rules
         chunks = [list(range(n // 2)), list(range(n // 2, n))] if n > 8 else []
         chunks += [[i] for i in range(n)]
         for drop in chunks:
@@ -640,16 +694,9 @@ def shrink_encode(case: dict, cls: str, rng) -> dict:
             if not keep:
                 continue
             cand = sub_case(cur, keep)
-            # an AND on what is now the first operation of its component cannot be written in text
-            firsts = set()
-            fixed = []
-            for c in cand['tcomps']:
-                if c[0] == 'o' and c[1] not in firsts:
-                    firsts.add(c[1])
-                    c = ('o', c[1], c[2] & ~0x40, c[3])
-                fixed.append(c)
-            cand['tcomps'] = fixed
-            if eval_one(cand, rng)[1] == cls:
+            if need6 and not any(c[0] == 't6' for c in cand['tcomps']):
+                continue  # the family of the rule is part of what was written
+            if fails(cand):
                 cur = cand
                 changed = True
                 break
@@ -879,7 +926,7 @@ def run_decode_batch(inputs: list[dict]) -> list[dict]:
     for x in inputs:
         lines.append(f'flow dec {x["v6"]} {x["vpn"]} {x["hex"]}')
         lines.append(f'flow exadec {x["v6"]} {x["vpn"]} {x["hex"]}')
-    out = common.run_driver(DRV, lines)
+    out = drive(lines)
     res = []
     for i, x in enumerate(inputs):
         data = b'' if x['hex'] == '-' else bytes.fromhex(x['hex'])
@@ -1044,26 +1091,31 @@ def run(ctx: Ctx) -> None:
                 if not kls:
                     continue
                 ctx.count('oracle-fail:' + kls)
+                probe = case['stream'].split(':')[0] in ('boundary', 'afi-mix', 'afi-keyword', 'repeat-prefix', 'bit-sum', 'corpus')
+                small, w2 = case, w
                 if kls in ('wrong-action', 'action-pack-raises'):
                     canon = {'class': kls, 'actions': sorted(a[1].split(':')[0] for a in case['actions'])}
-                    small = case
-                elif case['stream'].startswith('length') and kls.startswith('wellformed'):
-                    n = len(bytes.fromhex(r['enc'].split(' ')[1]))
-                    payload = n - (1 if n < 241 else 2)
-                    canon = {'class': kls, 'payload-bytes': payload if payload in (4095,) else ('above-4095' if payload > 4095 else 'below-4095')}
-                    small = case
+                elif case['stream'].startswith('length'):
+                    payload = payload_len(r)
+                    canon = {'class': kls, 'payload-bytes': payload if payload == 4095 else ('above-4095' if payload > 4095 else 'below-4095')}
                 else:
-                    small = shrink_encode(case, kls, rng) if len(seen) < 60 else case
+                    if not probe and len(seen) < 60:
+                        small = shrink_encode(case, kls, rng)
+                        w2 = eval_one(small, rng)[2]
                     canon = canon_encode(kls, small)
-                    if case.get('text_override'):
+                    if case['stream'] == 'bit-sum':
                         canon['text'] = case['text_override']
                 key = json.dumps(canon, sort_keys=True)
                 if key in seen:
                     continue
-                if 'text' not in small:
-                    small['text'] = render_case(rng, small)
-                _, _, w2, r2 = eval_one(small, rng) if small is not case else (None, None, w, r)
-                seen[key] = Failure('text-field', canon, {'direction': 'encode', 'text': small.get('text_override') or small['text'], 'v6': small['v6'], 'rd': small['rd'], 'rd_text': small['rd_text'], 'tcomps': [list(c) for c in small['tcomps']], 'kws': small['kws'], 'actions': small['actions'], 'contradictory': small.get('contradictory', False)}, w2 or w)
+                seen[key] = Failure(
+                    'text-field',
+                    canon,
+                    {'direction': 'encode', 'text': small.get('text_override') or small['text'], 'v6': small['v6'], 'rd': small['rd'], 'rd_text': small['rd_text'],
+                     'tcomps': [list(c) for c in small['tcomps']], 'kws': small['kws'], 'actions': [list(a) for a in small['actions']], 'contradictory': small.get('contradictory', False),
+                     'stream': case['stream']},
+                    w2,
+                )
                 ctx.failures.append(seen[key])
 
     # ---- decode direction -------------------------------------------------------------
@@ -1132,7 +1184,7 @@ def replay(path: str) -> int:
     rp = data['replay']
     rng = random.Random(0)
     if rp['direction'] == 'encode':
-        case = new_case(rp['v6'], 'replay')
+        case = new_case(rp['v6'], rp.get('stream', 'replay'))
         case['tcomps'] = [tuple(c) for c in rp['tcomps']]
         case['kws'] = rp['kws']
         case['breaks'] = [True] * len(case['tcomps'])
